@@ -869,9 +869,11 @@ CHECKS = {
         "every ECMAScript spelling (53 binary properties and aliases; 38 General_Category values x long/short/extra aliases x bare / gc= / General_Category=; 175 Script values x long/ISO alias x sc / Script / scx / Script_Extensions) is compiled with \\p under u and its matched set obtained by one find_iter over a haystack holding all 1,112,064 scalar values; all spellings of a value must give the same set; \\P, [..], [^..] under u and v must give the set or its complement."
         " Layers: L1 equality with exact Unicode 17 sources (std 17, unicode-ident 17, closed forms); L2 algebra (gc leaves and scripts partition the code space, groups = unions, sc/scx inclusions, ~35 derived inclusions, Any/ASCII/Assigned); L4 equality with regex-syntax 16.0 on code points assigned in 16.0 modulo the pinned drift file; ~4000 near-miss names must be rejected; properties of strings: placement rules, 12 keycap sequences, 676 regional-indicator pairs, tag sequences, modifier sequences vs the engine's own Emoji_Modifier_Base x Emoji_Modifier, Basic_Emoji singles and VS16 forms, longest-first."
         " A case is one scanned set, identity, name probe or string membership question; non-trivial iff the set is non-empty.",
-        ["L4 rests on data/ucd16_17_drift.json, produced from the pinned tree and reviewed for plausibility, not independently confirmed (a wrong entry inside the pinned drift would be missed)", "surrogate code points are not reachable through UTF-8 haystacks (gc=Cs is checked to be empty there; the UCS-2 entry point is exercised in C14)", "the sequence sub-property names (RGI_<X>_Sequence vs RGI_Emoji_<X>_Sequence) are not claimed either way", "Script=Katakana_Or_Hiragana is not claimed either way", "contents of Basic_Emoji / ZWJ / flag sets are checked structurally, not against emoji-sequences 17"],
-        required=["layer.L1_exact_unicode17", "layer.L4_cross_version", "algebra_identities", "rejected_name_probes", "string_membership_questions", "flag_sequences", "modifier_sequences", "drift_entries_used"],
-        extra=lambda m: dict(layers=group_counters(m.counters, "layer."), property_values=m.c("property_values") // 16, spellings=m.c("spellings"), sets_scanned=m.c("sets_scanned"), algebra_identities=m.c("algebra_identities"), rejected_name_probes=m.c("rejected_name_probes"), string_membership_questions=m.c("string_membership_questions"), drift_entries_used=m.c("drift_entries_used"), flag_sequences=m.c("flag_sequences"), modifier_sequences=m.c("modifier_sequences"), exhaustive=True),
+        ["L4 rests on data/ucd16_17_drift.json, produced from the pinned tree and reviewed for plausibility, not independently confirmed (a wrong entry inside the pinned drift would be missed)", "surrogate code points are not reachable through UTF-8 haystacks (gc=Cs is checked to be empty there; the UCS-2 entry point is exercised in C14)", "the sequence sub-property names (RGI_<X>_Sequence vs RGI_Emoji_<X>_Sequence) are not claimed either way", "Script=Katakana_Or_Hiragana is not claimed either way", "contents of Basic_Emoji / ZWJ / flag sets are checked structurally, not against emoji-sequences 17",
+         "second stage (utf16 build, counters c11u16.*): every property value x \\p / \\P / [\\p] / [^\\p] x u / v on all 2048 surrogate code points through the UCS-2 entry point; expected: members of exactly gc=Cs, gc=C, sc/scx=Unknown, Any, Assigned"],
+        required=["layer.L1_exact_unicode17", "layer.L4_cross_version", "algebra_identities", "rejected_name_probes", "string_membership_questions", "flag_sequences", "modifier_sequences", "drift_entries_used", "c11u16.surrogate_probes"],
+        extra_stages=[("utf16", "c11u16")],
+        extra=lambda m: dict(layers=group_counters(m.counters, "layer."), surrogate_probes_ucs2=m.c("c11u16.surrogate_probes"), property_values=m.c("property_values") // 16, spellings=m.c("spellings"), sets_scanned=m.c("sets_scanned"), algebra_identities=m.c("algebra_identities"), rejected_name_probes=m.c("rejected_name_probes"), string_membership_questions=m.c("string_membership_questions"), drift_entries_used=m.c("drift_entries_used"), flag_sequences=m.c("flag_sequences"), modifier_sequences=m.c("modifier_sequences"), exhaustive=True),
         mem_gb=8,
     ),
     "C12": simple_check(
